@@ -155,6 +155,10 @@ def strOps (c : Nat → Nat → Nat) : Ops (Nat × Nat) where
   fwd := fun p _ => (p.1, p.2 + 1)
   bwd := fun p _ => (p.1 - 1, p.2)
 
+/-- what the harness prints for a reported match: position, length, `forward()` and `revcomp()` intervals -/
+def hitObs (h : Hit FMDModel.Bi) : SmemObs :=
+  ⟨h.pos, h.len, h.iv.lower, h.iv.lower + h.iv.size, h.iv.lowerRev, h.iv.lowerRev + h.iv.size⟩
+
 /-- number of occurrences of `pattern[b..e)` in the text -/
 def cnt (T pat : List Nat) (b e : Nat) : Nat := (occurrences (sub pat b (e - b)) T).length
 
